@@ -46,7 +46,46 @@ func windowBase(v ssa.Value) (ssa.Value, int64, bool) {
 }
 
 // ruleHDR checks every NewExifHeader call (and direct ExifHeader field stores) in library code; onlyPkg restricts to one package.
+// ruleHdrCtor: meta.NewExifHeader stores its parameters unchanged (a constructor that clamps or rewrites a field
+// makes every header differ from what the payload says).
+func ruleHdrCtor(p *Prog, r *Report) {
+	f := p.Func("meta", "", "NewExifHeader")
+	key := "meta.NewExifHeader | fields are the parameters, unchanged"
+	if f == nil {
+		r.Undecided("HDR", key, "-", "anchor not resolved")
+		return
+	}
+	want := map[string]string{"ByteOrder": "byteOrder", "FirstIfdOffset": "firstIfdOffset", "TiffHeaderOffset": "tiffHeaderOffset", "ExifLength": "exifLength", "ImageType": "imageType"}
+	got := map[string]string{}
+	if len(f.Blocks) != 1 {
+		r.Bad("HDR", key, p.posStr(f.Pos()), "the constructor branches: a field of the header depends on a condition instead of being the parameter")
+		return
+	}
+	eachInstr(f, func(_ *ssa.BasicBlock, _ int, in ssa.Instruction) {
+		if st, ok := in.(*ssa.Store); ok {
+			if fa, ok := st.Addr.(*ssa.FieldAddr); ok {
+				name := fieldName(fa.X.Type(), fa.Field)
+				if prm, ok := st.Val.(*ssa.Parameter); ok {
+					got[name] = prm.Name()
+				} else {
+					got[name] = shortVal(st.Val)
+				}
+			}
+		}
+	})
+	for fld, prm := range want {
+		if got[fld] != prm {
+			r.Bad("HDR", key, p.posStr(f.Pos()), fmt.Sprintf("field %s is set to %s, not to the parameter %s", fld, got[fld], prm))
+			return
+		}
+	}
+	r.OK("HDR", key, p.posStr(f.Pos()), "five fields copied from the parameters in a single block")
+}
+
 func ruleHDR(p *Prog, r *Report, onlyPkg string) {
+	if onlyPkg == "" || onlyPkg == "tiff" {
+		ruleHdrCtor(p, r)
+	}
 	n := 0
 	for _, f := range p.AllLibFns() {
 		if onlyPkg != "" && (f.Pkg == nil || relPkg(f.Pkg.Pkg.Path()) != onlyPkg) {
